@@ -85,12 +85,17 @@ def case_lit(d, S, out, zeros):
 def run(ctx):
     ctx.prove()
     rng = ctx.rng
-    count = 300 if ctx.quick else 4000
+    count = 300 if ctx.quick else 3000
     max_n = 14 if ctx.quick else 18
     stats = {"feasible_instances": 0, "infeasible_instances": 0, "R_nonzero": 0}
     cases, terms = [], []
     reported, seen = set(), set()
     n_eval = 0
+    for kind0, desc0 in fh.corner_cases():
+        rp0 = fh.BUILDERS[kind0](desc0)
+        for sig, msg, extra in check_instance(rp0)[5]:
+            ctx.violation(f"{sig}/{kind0}/corner", f"{kind0}: {msg}",
+                          dict(fh.describe({"kind": kind0, "desc": desc0, "rp": rp0}), **extra), True)
     for case in fh.gen_objects(rng, count, max_n, stats=stats):
         rp, kind = case["rp"], case["kind"]
         d, S, out, zeros, nfeas, problems = check_instance(rp)
